@@ -182,6 +182,7 @@ let () =
              | [RUnit] | [RArg _] -> (match Hashtbl.find_opt lpdone w with Some (Some _) -> () | _ -> bad "call returned without LP")
              | _ -> ())
           end;
+          if check_gi && not (c_all_pc_ok3_b st') then (incr pcbad; if !pcbad <= 3 then Printf.printf "PCBAD(ok3) case %s after step of %d: %s\n" c.id w (state st' (tids c)));
           if check_gi && not (c_all_pc_ok2_b st') then (incr pcbad; if !pcbad <= 3 then Printf.printf "PCBAD(adj) case %s after step of %d: %s\n" c.id w (state st' (tids c)));
           if check_gi && not (c_all_pc_ok_b c.order st') then (incr pcbad; if !pcbad <= 3 then Printf.printf "PCBAD case %s after step of %d: %s\n" c.id w (state st' (tids c)));
           if c.dumpsteps then Printf.fprintf oc "STEP %d acq=%s ev=%s en=%s | %s\n" w a ev en (state st' (tids c))
